@@ -766,6 +766,14 @@ int xmpp_connect_component(xmpp_conn_t *conn,
         return XMPP_EINT;
     }
 
+    if (!conn->sm_state) {
+        conn->sm_state = strophe_alloc(conn->ctx, sizeof(*conn->sm_state));
+        if (!conn->sm_state)
+            return XMPP_EMEM;
+        memset(conn->sm_state, 0, sizeof(*conn->sm_state));
+        conn->sm_state->ctx = conn->ctx;
+    }
+
     port = port ? port : _conn_default_port(conn, XMPP_COMPONENT);
     if (conn->xsock)
         sock_free(conn->xsock);
